@@ -4,7 +4,7 @@
 # path-depends on the worktree. (The registered checks themselves always run against /repo.)
 set -u
 WT=$1; PATCH=$2; shift 2
-MC=/var/tmp/mutcheck
+MC=${MC:-/var/tmp/mutcheck}
 mkdir -p $MC
 rsync -a --delete --exclude .cache --exclude work --exclude .git --exclude replays --exclude evidence /verif/ $MC/verif/
 mkdir -p $MC/verif/.cache $MC/verif/replays $MC/verif/evidence
